@@ -11,6 +11,7 @@ func checkC01(c *Ctx) {
 	ruleAlias(c)
 	ruleCursorPair(c)
 	ruleBufForward(c)
+	rulePadStart(c)
 	ruleProvOffsets(c)
 	ruleWSSpec(c)
 	ruleLineCountStep(c)
@@ -25,6 +26,7 @@ func checkC08(c *Ctx) {
 	ruleReadErrKept(c)
 	ruleLineComplete(c)
 	ruleScanStart(c)
+	rulePadStart(c)
 	ruleBufForward(c)
 	ruleSameMachine(c)
 	ruleCtor(c)
@@ -33,6 +35,8 @@ func checkC08(c *Ctx) {
 
 func init() {
 	addControls(
+		Control{Name: "neg-padnulls-loop-bound-spelled-differently", Props: []string{"C08", "C01"}, File: "parse.go", Negative: true,
+			Old: "\tfor i, j := oldLen-1, newLen-1; i >= start; i-- {", New: "\tfor i, j := oldLen-1, newLen-1; i > start-1; i-- {"},
 		Control{Name: "neg-scan-resumes-at-pending-cr", Props: []string{"C08", "C01", "C04"}, File: "parse.go", Negative: true,
 			Old: "\teolEnd := -1\n\tfor {", New: "\teolEnd := -1\n\tscanStart := p.i\n\tfor {",
 			Edits: [][2]string{
